@@ -22,7 +22,7 @@ def tree_stages(ctx):
     """containment, UUID table and owning collections (C03 C04 C16)"""
     names = REL + [r + "_same" for r in REL] + ["Rel_sec_other", "Rel_blk_other"] + (
         [] if ctx.quick() else ["Rel_sym_other", "Rel_prx_other", "Rel_biv_other"]) + (
-        ["ModListQ"] if ctx.quick() else ["ModList"])
+        ["ModListQ"] if ctx.quick() else ["ModList"]) + ["RelX"]
     ctx.log("TLC: exhaustive transition dumps of", names)
     results = parallel(lambda n: run_tlc_config(n, emit=True), names)
     for n, r in zip(names, results):
@@ -32,7 +32,7 @@ def tree_stages(ctx):
         stages.stage_sim(ctx, "Tree", num=300, depth=30)
     else:
         stages.stage_mc(ctx, "Tree", timeout=3000)
-        stages.stage_sim(ctx, "Tree", num=1200, depth=40)
+        stages.stage_sim(ctx, "Tree", num=600, depth=40)
 
 
 RULE_WALK = ("cases are transitions of the bounded TLA+ model (Gtirb.tla under the listed configurations), each "
@@ -92,7 +92,7 @@ def p_geom(ctx):
 
 @plan("C12")
 def p_lazy(ctx):
-    names = ["LazyB", "LazyIQ"] if ctx.quick() else ["LazyB", "LazyI", "LazyIT"]
+    names = ["LazyB", "LazyIQ", "LazyMove"] if ctx.quick() else ["LazyB", "LazyI", "LazyIT", "LazyMove"]
     parallel(lambda n: run_tlc_config(n, emit=True), names)
     for n in names:
         stages.stage_lazy(ctx, n, max_run=150, bases=(0,) if ctx.quick() else (0, core.BASES["2^64-40"]))
@@ -245,7 +245,7 @@ def p_bytes(ctx):
     names = ["BytesQ"] if ctx.quick() else ["BytesQ", "Bytes"]
     results = parallel(lambda n: run_tlc_config(n, emit=True), names)
     for n, r in zip(names, results):
-        stages.stage_graph_lookups(ctx, n, result=r, per_step=6,
+        stages.stage_graph_lookups(ctx, n, result=r, per_step=6, always_blocks=True,
                                    bases=(0, core.BASES["2^64-40"]))
     from . import driver
     driver.stage_traces(ctx, "TraceData", n_traces=30 if ctx.quick() else 300, length=60 if ctx.quick() else 100)
@@ -259,6 +259,7 @@ def p_symx(ctx):
     for n, r in zip(names, results):
         stages.stage_graph_lookups(ctx, n, result=r, per_step=8,
                                    bases=(0, core.BASES["2^64-40"]) if ctx.quick() else tuple(core.BASES.values()))
+    stages.stage_sim_lookups(ctx, "SymXBig", num=200 if ctx.quick() else 1500, depth=40, bases=(0,), per_step=12, p_lookup=0.35)
     return "model_checking", RULE_LOOKUP
 
 
@@ -324,7 +325,12 @@ def replay_file(gtirb, prop, path):
     rec = judge.Recorder(consts)
     for op in v["history"]:
         if op["name"] == "query":
-            obs = rec.ask(env, op["f"], op["x"], op["q"], op["point"])
+            try:
+                obs = rec.ask(env, op["f"], op["x"], op["q"], op["point"])
+            except universe.Unprojectable:
+                raise
+            except Exception as e:   # noqa
+                obs = {"exc": type(e).__name__}
         else:
             obs = env.step(op)
         print("  %s -> %s" % (json.dumps(op), json.dumps(obs, default=str)[:200]))
@@ -338,6 +344,24 @@ def replay_file(gtirb, prop, path):
         if ok:
             print("the divergence does not reproduce on the current tree")
             return 0
+        print("VIOLATION property=%s replay=%s" % (prop, path))
+        return 1
+    if v["kind"] == "lookup-raised":
+        q = v["op"]["q"]
+        try:
+            got = rec.ask(env, v["op"]["name"], v["op"]["x"], q, q[1] == q[0] + 1 and q[2] == 1)
+        except Exception as e:   # noqa
+            print("lookup %s raised %s: %s" % (json.dumps(v["op"]), type(e).__name__, e))
+            print("VIOLATION property=%s replay=%s" % (prop, path))
+            return 1
+        print("lookup %s -> %s" % (json.dumps(v["op"]), json.dumps(got)))
+        print("the divergence does not reproduce on the current tree")
+        return 0
+    if v["kind"] not in ("result", "state"):
+        print("stored case (kind %s): %s" % (v.get("kind"), json.dumps(v.get("op"), default=str)[:600]))
+        print("expected:", json.dumps(v.get("expected"), default=str)[:800])
+        print("observed:", json.dumps(v.get("observed"), default=str)[:800])
+        print("this kind of case is re-executed by re-running the check: ./check %s --tier quick" % prop)
         print("VIOLATION property=%s replay=%s" % (prop, path))
         return 1
     print("expected:", json.dumps(v["expected"], default=str)[:1000])
